@@ -50,3 +50,8 @@ claim("C18", "model_checking", "explicit enumeration of a generated .ini space r
       "All 34 634 files of the space (6 inheritance structures incl. self-inheritance and missing parent x placements of each option over a 3-level chain x section selections x CLI sizes incl. 0 and out-of-range) are resolved by both the model and the implementation on U55-128 and U65-256 and every resolved parameter is compared; error cases must be rejected, valid ones accepted. 96 command-line cases (bundled name vs absolute path x 3 working directories incl. one holding a decoy Arm/vela.ini x memory modes x CLI size given/absent/0) run through vela.main() and are judged on the --verbose-config output.",
       "The model is the documented rule set R1-R9 (DESIGN.md A5); any exception counts as rejection for invalid files; inheritance cycles longer than 1 are not generated.",
       "DESIGN.md section 4 C18")
+
+claim("C11", "exploration", "bounded-exhaustive enumeration of mixed CPU/NPU networks x configurations; source and output flatbuffers decoded by a plain reader and compared field by field",
+      "Every network of the grammar (CPU-only steps: third-party custom op, NEG, DEPTH_TO_SPACE, dynamic-weight CONV_2D with/without bias; taps and CPU/NPU branches giving several outputs and multi-consumer tensors) x configuration sub-lattice and every builtin operator as a single-operator model is compiled; subgraph inputs/outputs (order, name, shape, type, quantisation), every surviving operator (opcode, version, option table field by field via generic vtable walk, custom options, operand positions incl. omitted (-1) operands, constant operand data) or its absorption/folding, topological operator order, and re-readability by Vela's own reader are checked.",
+      "Tensor identity across files is the tensor name; an absent option table equals a table of defaults; trailing omitted operands equal a shorter operand list; single-operator corner models without option tables are judged on interface/wiring only.",
+      "DESIGN.md section 4 C11")
